@@ -270,6 +270,10 @@ def _is_cleanup_edge(fn, b, s):
 
 
 def run(ctx, P):
+    from . import r2
+    r2.expiry_only_brought_forward(ctx, P, "C20g")
+    r2.verify_chain_is_finite(ctx, P, "C20h")
+    r2.followup_chain_not_restarted(ctx, P, "C20i")
     clause_f(ctx, P)
     clause_a(ctx, P)
     clause_b(ctx, P)
